@@ -402,16 +402,24 @@ func main() {
 	}
 
 	// (3) end to end through the real parser
-	names := []string{"spop", "SETRANGE", "Incr"}
 	for i := 0; i < *ne2e; i++ {
 		c := randCfg()
-		for d := 0; d < 3; d++ {
-			if r.Chance(25) {
-				c.dbs = append(c.dbs, d)
+		if r.Chance(40) { // command rules alone, so that no key/slot/db rule masks them
+			c = &cfg{}
+		} else {
+			for d := 0; d < 3; d++ {
+				if r.Chance(25) {
+					c.dbs = append(c.dbs, d)
+				}
 			}
 		}
-		if r.Chance(50) {
-			c.cmds = append(c.cmds, names[r.Intn(len(names))])
+		// command blacklists: prefix-related names in any order, mixed case
+		for k := r.Intn(4); k > 0; k-- {
+			n := cmdPool[r.Intn(len(cmdPool))]
+			if r.Chance(30) {
+				n = strings.ToUpper(n)
+			}
+			c.cmds = append(c.cmds, n)
 		}
 		nCfg++
 		e2e(c, r, emit, &nObs)
@@ -422,6 +430,15 @@ func main() {
 	hx.WriteJSON(*statsPath, map[string]interface{}{"configs": nCfg, "observations": nObs, "samples": samples})
 	fmt.Fprintf(os.Stderr, "filterdrv: %d configurations, %d observations\n", nCfg, nObs)
 }
+
+// names that may be configured as blacklisted; several are prefixes of others
+var cmdPool = []string{"incr", "incrby", "incrbyfloat", "set", "setex", "setnx", "expire", "expireat", "restore", "spop", "setrange", "hset", "hsetnx"}
+
+// administrative commands a replica stream may carry and that are never forwarded
+// (the harness's own list, stated from the documentation, not read from the implementation)
+var adminCmds = []string{"cluster", "asking", "readonly", "readwrite", "auth", "client", "quit", "reset", "echo", "command", "flushall", "flushdb",
+	"latency", "module", "psync", "replconf", "save", "shutdown", "slaveof", "slowlog", "swapdb", "sync", "bgsave", "bgrewriteaof", "opinfo",
+	"lastsave", "monitor", "role", "debug", "restore-asking", "migrate", "wait", "pfselftest", "pfdebug"}
 
 func e2e(c *cfg, r *hx.Rng, emit func(map[string]interface{}), nObs *int) {
 	kf := &config.FilterKeyConfig{}
@@ -491,18 +508,20 @@ func e2e(c *cfg, r *hx.Rng, emit func(map[string]interface{}), nObs *int) {
 		stream = append(stream, hx.EncodeCmd(append([][]byte{[]byte(name)}, args...)...)...)
 		srcs = append(srcs, src{t: t, args: args, kidx: kidx, db: db, end: int64(len(stream)), name: strings.ToLower(name)})
 	}
-	// blacklisted command names also appear in the stream
-	for _, n := range c.cmds {
-		k := []byte("q" + strconv.Itoa(r.Intn(9)))
-		var args [][]byte
-		switch strings.ToLower(n) {
-		case "spop", "incr":
-			args = [][]byte{k}
-		default:
-			args = [][]byte{k, []byte("0"), []byte("x")}
+	// every poolable name and a few administrative ones appear in the stream (single-key layout: key first)
+	extra := append(append([]string{}, cmdPool...), "restore-asking", "flushall", "replconf", "debug")
+	for _, n := range extra {
+		if !r.Chance(60) {
+			continue
 		}
-		stream = append(stream, hx.EncodeCmd(append([][]byte{[]byte(strings.ToLower(n))}, args...)...)...)
-		srcs = append(srcs, src{t: tmpl{name: strings.ToLower(n)}, args: args, kidx: []int{0}, db: db, end: int64(len(stream)), name: strings.ToLower(n)})
+		k := []byte("q" + strconv.Itoa(r.Intn(9)))
+		args := [][]byte{k, []byte("1"), []byte("x")}
+		kidx := []int{0}
+		if n == "flushall" {
+			args, kidx = [][]byte{}, []int{}
+		}
+		stream = append(stream, hx.EncodeCmd(append([][]byte{[]byte(n)}, args...)...)...)
+		srcs = append(srcs, src{t: tmpl{name: n}, args: args, kidx: kidx, db: db, end: int64(len(stream)), name: n})
 	}
 	outs, err := ro.VerifParseAof(context.Background(), bufio.NewReader(bytes.NewReader(stream)), 0, 0)
 	if err == nil {
@@ -535,7 +554,7 @@ func e2e(c *cfg, r *hx.Rng, emit func(map[string]interface{}), nObs *int) {
 			}
 		}
 		m := map[string]interface{}{"site": "CmdKey", "name": s.name, "keys": intss(ks), "proj": s.t.proj, "reject": !fwd, "kept": kp, "intact": intact,
-			"e2e": true, "db": s.db, "dbs": append([]int{}, c.dbs...), "cmd": ints([]byte(s.name)), "cmds": lc(c.cmds)}
+			"e2e": true, "db": s.db, "dbs": append([]int{}, c.dbs...), "cmd": ints([]byte(s.name)), "cmds": lc(append(append([]string{}, c.cmds...), adminCmds...))}
 		c.fields(m)
 		emit(m)
 		*nObs++
